@@ -249,7 +249,9 @@ class TimeArray(np.ndarray, TimeInterface):
         # look at the units - convert the values to what they need to be (in
         # the base_unit) and then delegate to the ndarray.__setitem__
         if not hasattr(val, '_conversion_factor'):
-            val *= self._conversion_factor
+            # a new array in the base unit; the caller's object (an ndarray
+            # would be scaled in place, a list repeated) stays as it was
+            val = self._convert_if_needed(val)
         return np.ndarray.__setitem__(self, key, val)
 
     def _convert_if_needed(self,val):
